@@ -12,14 +12,14 @@ TECHNIQUE = 'runtime monitoring: configuration matrix driven under a determinist
 RULE = ('the matrix {subscriber states spied / not} x {subscriber constructed instrumented / not} x {named / unnamed} x {subscribe before '
         'start_at / after it from outside / from inside one of its handlers} x {fifo, lifo} x {0, 1, 2 other active objects already '
         'subscribed to the same signal} x {publisher states spied / not} x {publish before the publisher\'s start_at / after it from outside '
-        '/ from inside a handler}; every cell is driven under detsched (random / PCT schedules, quiescence between phases); each unique-id '
+        '/ from inside a handler}; in the subscribe-inside cells two further objects subscribe from inside their own handlers at the same time, each on its own thread; every cell is driven under detsched (random / PCT schedules, quiescence between phases); each unique-id '
         'publication made after the subscription must be dispatched exactly once by the subscriber and by every earlier subscriber. '
         'distinct_nontrivial = distinct matrix cells run (x schedule in the thorough tier)')
 CELLS = list(itertools.product((True, False), (True, False), (True, False), ('before', 'after', 'inside'), ('fifo', 'lifo'), (0, 1, 2),
                                (True, False), ('before', 'after', 'inside')))
 CASES = {'quick': len(CELLS), 'thorough': len(CELLS) * 60}
-BUDGET = {'quick': 60, 'thorough': 1500}
-REQUIRE = {'cells_run': 800, 'publications_checked': 2000}
+BUDGET = {'quick': 60, 'thorough': 300}
+REQUIRE = {'cells_run': 800, 'publications_checked': 2000, 'concurrent_subscribes': 200}
 ASSUME = ['decoration is all-or-none per chart; each phase is followed by quiescence so "later publications" is unambiguous']
 ANNOUNCE_CASES = True
 
@@ -62,6 +62,7 @@ def run_case(ctx, n):
         a.start_at(make_state(h, 'c07_other_%d' % i, True, 'fifo'))
         earlier.append((a, h))
       s.quiesce()
+      twins = []
       hs = aosim.History()
       sub = aosim.make_ao(hs, name='sub' if s_named else None, instrumented=s_instr)
       st = make_state(hs, 'c07_sub_state', s_spied, kind)
@@ -73,8 +74,20 @@ def run_case(ctx, n):
         s.quiesce()
         sub.subscribe(Event(signal='C07_PUB'), queue_type=kind)
       else:
+        # two more objects subscribe from inside their own handlers at the same time (each in its own thread)
+        for i in range(2):
+          h = aosim.History()
+          a = aosim.make_ao(h, name='twin%d' % i)
+          a.start_at(make_state(h, 'c07_twin_%d' % i, i == 0, kind))
+          twins.append((a, h))
         sub.start_at(st)
+        s.quiesce()
+        for a, _ in twins[:1]:
+          a.post_fifo(Event(signal='DO_SUB'))
         sub.post_fifo(Event(signal='DO_SUB'))
+        for a, _ in twins[1:]:
+          a.post_fifo(Event(signal='DO_SUB'))
+        ctx.count('concurrent_subscribes')
       s.quiesce()
       hp = aosim.History()
       pub = aosim.make_ao(hp, name='pub')
@@ -106,7 +119,7 @@ def run_case(ctx, n):
     if exc:
       ctx.violation('C07/exception-in-thread', 'a thread died: %r' % exc, wit)
       return
-    for who, h in [('subscriber', hs)] + [('earlier subscriber %d' % i, h) for i, (_, h) in enumerate(earlier)]:
+    for who, h in [('subscriber', hs)] + [('earlier subscriber %d' % i, h) for i, (_, h) in enumerate(earlier)] + [('concurrent subscriber %d' % i, h) for i, (_, h) in enumerate(twins)]:
       for u in uids:
         ctx.count('publications_checked')
         c = h.handled.count(u)
@@ -119,7 +132,11 @@ def run_case(ctx, n):
               mech.append('subscribe-on-running-object-after-others')
             if not p_spied:
               mech.append('publisher-states-not-spied')
+            if twins and not mech:
+              mech.append('concurrent-subscribe-lost')
             key = 'C07/publication-not-received/' + ('+'.join(mech) or 'other')
+          elif c == 0 and who.startswith('concurrent'):
+            key = 'C07/publication-not-received/concurrent-subscribe-lost'
           elif c == 0:
             key = 'C07/publication-not-received-by-earlier-subscriber/' + ('publisher-states-not-spied' if not p_spied else 'other')
           else:
